@@ -62,7 +62,8 @@ def _expected(model, family, rec, params, decorated, Ktrain):
 
 
 def train_case(case):
-    family, gemini, solver, bs, decorated, data_id, max_iter, lr, seed = case
+    family, gemini, solver, bs, decorated, data_id, max_iter, lr, seed = case[:9]
+    route = case[9] if len(case) > 9 else "ctor"
     variant = 0
     use_path = False
     if data_id >= 20:            # sparse families trained through path(): the path has its own training loop
@@ -88,12 +89,18 @@ def train_case(case):
             kw["feature_mask"] = np.array([True, False, True]) if variant != 5 else np.array([False, True, False])   # variant 5: a one-feature tree
     if family in ("SparseLinearModel", "SparseMLPModel"):
         kw["alpha"] = 0.05 if not use_path else 0.3
-    model = M.make(family, **kw)
+    if route != "ctor":
+        # non-default regularisation hyperparameters, so that a value remembered from construction time differs from the current one
+        if family in ("RIM", "KernelRIM"):
+            kw["reg"] = 0.37
+        if family in ("SparseMLPModel",):
+            kw["M"] = 3.0
+    model = M.make(family, _route=route, **kw)
     if decorated:
         from gemclus import add_mlcl_constraint
         model = add_mlcl_constraint(model, ML, CL, FACTOR)
     spy = seams.BatchSpy(model)
-    where = dict(family=family, gemini=gemini if family not in ("RIM", "KernelRIM") else "mi", solver=solver, batch_size=bs, decorated=decorated,
+    where = dict(route=route, family=family, gemini=gemini if family not in ("RIM", "KernelRIM") else "mi", solver=solver, batch_size=bs, decorated=decorated,
                  trained_by="path" if use_path else "fit")
     Ktrain = None
     if family == "KernelRIM":
@@ -192,6 +199,14 @@ def explorers(tier, seed):
                                 cases.append((family, gemini, solver, bs, decorated, data_id, 6, 0.3, seed))
                             else:
                                 cases.append((family, gemini, solver, bs, decorated, data_id, 3, 0.1, seed))
+    # scikit-learn protocol routes: the same training monitored on estimators whose hyperparameters arrived through set_params
+    for family in FAMILIES:
+        gem = "mi" if family in ("RIM", "KernelRIM") else ("mmd_ova" if FAMILIES.index(family) % 2 else "kl_ovo")
+        for route in ("set_params", "used_set_params"):
+            for solver in ("adam", "sgd"):
+                for bs in ([None] if family == "CategoricalModel" else [2, None]):
+                    for data_id in ((0, 20) if family in ("SparseLinearModel", "SparseMLPModel") and solver == "adam" else (0,)):
+                        cases.append((family, gem, solver, bs, False, data_id, 3, 0.1, seed, route))
     return [Explorer("every_step_direction", "props.c03", "train_case", cases, chunk=4, floor=200,
                      rule="model family x GEMINI x solver x batch size x {plain, decorated} x 2 datasets; every optimiser step of every epoch is "
                           "checked; non-trivial = fit with at least one step whose direction is non-zero; outcomes = distinct ReLU activation "
